@@ -208,7 +208,14 @@ func bsigRun(args []string) error {
 	s5 := &bsigner{"s5", []*keyCert{newKeyCert("p256", []string{"z.example"}, 0)}, map[string]bool{"z.example": true}}
 	// s6: host A with a chain of three certificates (as NewCertChain / ReadCertChain build it: spare capacity behind it)
 	s6 := &bsigner{"s6", []*keyCert{newKeyCert("p256", []string{hostA}, 0), newKeyCert("p256", []string{"ca3.example"}, 20), newKeyCert("p256", []string{"root3.example"}, 40)}, map[string]bool{hostA: true}}
-	seqs := [][]*bsigner{{s1}, {s6, s2}, {s6, s5}, {s2}, {s3}, {s5, s1}, {s1, s2}, {s2, s1}, {s1, s3}, {s3, s1}, {s2, s3}, {s1, s2, s3}, {s4}, {s4, s2}, {s2, s4}, {s4, s2, s1}, {s5}, {s2, s5}}
+	// s7, s8: two certificates (hosts A and B) for ONE key pair, as after a renewal or when one operator certifies two hosts:
+	// only auth-sha256 tells them apart
+	k7 := newKeyCert("p256", []string{hostA}, 0)
+	k8 := renew(k7, 9)
+	k8.certs[0].DNSNames = []string{hostB} // the harness decides coverage by its own host table; the certificate bytes stay as signed
+	s7 := &bsigner{"s7", []*keyCert{k7}, map[string]bool{hostA: true}}
+	s8 := &bsigner{"s8", []*keyCert{k8}, map[string]bool{hostB: true}}
+	seqs := [][]*bsigner{{s1}, {s6, s2}, {s6, s5}, {s7, s8}, {s2}, {s3}, {s5, s1}, {s1, s2}, {s2, s1}, {s1, s3}, {s3, s1}, {s2, s3}, {s1, s2, s3}, {s4}, {s4, s2}, {s2, s4}, {s4, s2, s1}, {s5}, {s2, s5}}
 	ctx := &bsigCtx{}
 	var prev func()
 	week := int64(7 * 24 * 3600)
